@@ -1293,6 +1293,18 @@ func (i valueImporter) importArrayValue(
 	var staticArrayType interpreter.ArrayStaticType
 	if arrayType != nil {
 		staticArrayType = interpreter.ConvertSemaArrayTypeToStaticArrayType(inter, arrayType)
+
+		// The array is constructed with the expected type as its static type.
+		// Ensure the elements belong to it (like the construction of a dictionary does for keys and values):
+		// transferring an array into a parent container relies on its element type.
+		staticElementType := staticArrayType.ElementType()
+		for _, value := range values {
+			if !interpreter.IsSubType(inter, value.StaticType(inter), staticElementType) {
+				return nil, &MalformedValueError{
+					ExpectedType: arrayType,
+				}
+			}
+		}
 	} else {
 		types := make([]sema.Type, len(v.Values))
 
